@@ -48,36 +48,56 @@ def go_env():
     return env
 
 
-def gen_gomod(extra_replace=""):
-    env = dict(os.environ)
-    if extra_replace:
-        env["VERIF_EXTRA_REPLACE"] = extra_replace
-    r = subprocess.run([sys.executable, os.path.join(VERIF, "tools", "gen_gomod.py")], env=env,
+def _harness_copy(extra_replace=""):
+    """A private copy of the harness module with a freshly generated go.mod (so concurrent checks with
+    different replace directives never fight over one go.mod). Paths are stable per replace-set to keep the
+    go build cache warm."""
+    import hashlib
+    key = hashlib.sha1((extra_replace + "|" + REPO).encode()).hexdigest()[:12]
+    base = os.environ.get("VERIF_SCRATCH", tempfile.gettempdir())
+    dst = os.path.join(base, "verif-harness-" + key)
+    r = subprocess.run(["rsync", "-a", "--delete", "--exclude", "go.mod", "--exclude", "go.sum", HARNESS + "/", dst + "/"],
                        capture_output=True, text=True)
     if r.returncode != 0:
+        raise Infra("rsync harness failed: " + r.stderr)
+    env = dict(os.environ)
+    env["VERIF_HARNESS_DIR"] = dst
+    if extra_replace:
+        env["VERIF_EXTRA_REPLACE"] = extra_replace
+    r = subprocess.run([sys.executable, os.path.join(VERIF, "tools", "gen_gomod.py")], env=env, capture_output=True, text=True)
+    if r.returncode != 0:
         raise Infra("gen_gomod failed: " + r.stderr)
+    return dst
 
 
-def go_build(pkg, out, tags="verif", extra_args=(), timeout=900):
-    """Build a harness command (./cmd/<x>) against /repo's working tree."""
-    gen_gomod()
-    cmd = [GO, "build", "-tags", tags, *extra_args, "-o", out, pkg]
+def go_build(pkg, out, tags="verif", extra_args=(), timeout=1200, instrument=None, golib=False, test=False):
+    """Build a harness command (./cmd/<x>) or test binary against /repo's CURRENT working tree.
+    instrument: list of /repo package dirs whose sync/atomic imports are substituted (schedule points)."""
+    extra_replace = ""
+    overlay = None
+    if instrument or golib:
+        sys.path.insert(0, os.path.join(VERIF, "tools"))
+        import instr
+        overlay, repl = instr.instrument(instrument or [], ("lock/maxinflight",) if golib else ())
+        extra_replace = ";".join(repl)
+    hdir = _harness_copy(extra_replace)
+    cmd = [GO, "test", "-c"] if test else [GO, "build"]
+    cmd += ["-tags", tags, *extra_args]
+    if overlay:
+        cmd += ["-overlay", overlay]
+    cmd += ["-o", out, pkg]
     t0 = time.time()
-    r = subprocess.run(cmd, cwd=HARNESS, env=go_env(), capture_output=True, text=True, timeout=timeout)
+    try:
+        r = subprocess.run(cmd, cwd=hdir, env=go_env(), capture_output=True, text=True, timeout=timeout)
+    except subprocess.TimeoutExpired:
+        raise Infra("go build timeout: " + pkg)
     if r.returncode != 0:
         raise Infra("go build %s failed:\n%s\n%s" % (pkg, r.stdout[-4000:], r.stderr[-6000:]))
     log("built %s in %.1fs" % (pkg, time.time() - t0))
 
 
-def go_test_build(pkg, out, tags="verif", extra_args=(), timeout=900):
-    """Build a harness test binary (needed for testing/synctest drivers)."""
-    gen_gomod()
-    cmd = [GO, "test", "-c", "-tags", tags, *extra_args, "-o", out, pkg]
-    t0 = time.time()
-    r = subprocess.run(cmd, cwd=HARNESS, env=go_env(), capture_output=True, text=True, timeout=timeout)
-    if r.returncode != 0:
-        raise Infra("go test -c %s failed:\n%s\n%s" % (pkg, r.stdout[-4000:], r.stderr[-6000:]))
-    log("built test %s in %.1fs" % (pkg, time.time() - t0))
+def go_test_build(pkg, out, **kw):
+    return go_build(pkg, out, test=True, **kw)
 
 
 def run(cmd, timeout, cwd=None, env=None, stdin=None):
